@@ -71,35 +71,31 @@ def multifragCaps : Msg := .comp [("MaxRequestSize", u32le 0)]
 /-- `capability_set(Some(cap))`: the length field is computed from the message -/
 def capabilitySet (capType : Nat) (body : Bytes) : Msg := .comp [
   ("capabilitySetType", u16le capType),
-  ("lengthCapability", .dyn (u16le ((body.length + 4) % 65536)) (.size "capabilitySet" 1 0 4)),
+  ("lengthCapability", .dyn (u16le ((body.length + 4) % 65536)) (.sizeSat "capabilitySet" 1 0 4)),
   ("capabilitySet", blob body)]
 
 /-- `capability_set(None)`: the template used when reading -/
 def capabilitySetTmpl : Msg := .comp [
   ("capabilitySetType", u16le 1),
-  ("lengthCapability", .dyn (u16le 4) (.size "capabilitySet" 1 0 4)),
+  ("lengthCapability", .dyn (u16le 4) (.sizeSat "capabilitySet" 1 0 4)),
   ("capabilitySet", blob [])]
 
-/-- template chosen by `Capability::from_capability_set` for a known type -/
-def capabilityTmpl (capType : Nat) : Option Msg :=
-  if capType = 0x0001 then some (generalCaps 0)
-  else if capType = 0x0002 then some (bitmapCaps 0 0 0)
-  else if capType = 0x0003 then some (orderCaps 2)
-  else if capType = 0x0004 then some bitmapCacheCaps
-  else if capType = 0x0008 then some pointerCaps
-  else if capType = 0x000D then some (inputCaps 0 0x40c)
-  else if capType = 0x000F then some brushCaps
-  else if capType = 0x0010 then some glyphCaps
-  else if capType = 0x0011 then some offscreenCaps
-  else if capType = 0x0014 then some virtualChannelCaps
-  else if capType = 0x000C then some soundCaps
-  else if capType = 0x001A then some multifragCaps
-  else none
+/-- templates chosen by `Capability::from_capability_set` for the known types -/
+def capTable : List (Nat × Msg) := [
+  (0x0001, generalCaps 0), (0x0002, bitmapCaps 0 0 0), (0x0003, orderCaps 2), (0x0004, bitmapCacheCaps),
+  (0x0008, pointerCaps), (0x000D, inputCaps 0 0x40c), (0x000F, brushCaps), (0x0010, glyphCaps),
+  (0x0011, offscreenCaps), (0x0014, virtualChannelCaps), (0x000C, soundCaps), (0x001A, multifragCaps)]
+
+def lookupCap : List (Nat × Msg) → Nat → Option Msg
+  | [], _ => none
+  | (k, t) :: rest, ty => if k = ty then some t else lookupCap rest ty
+
+def capabilityTmpl (capType : Nat) : Option Msg := lookupCap capTable capType
 
 /-! ### global.rs -/
 
 def shareControlHeader (pduType source : Nat) (message : Bytes) : Msg := .comp [
-  ("totalLength", .dyn (u16le ((message.length + 6) % 65536)) (.size "pduMessage" 1 0 6)),
+  ("totalLength", .dyn (u16le ((message.length + 6) % 65536)) (.sizeSat "pduMessage" 1 0 6)),
   ("pduType", u16le pduType),
   ("PDUSource", .opt (some (u16le source))),
   ("pduMessage", blob message)]
@@ -108,7 +104,7 @@ def shareControlHeaderTmpl : Msg := shareControlHeader 0x11 0 []
 
 def shareDataHeader (shareId pduType2 : Nat) (message : Bytes) : Msg := .comp [
   ("shareId", u32le shareId), ("pad1", .u8 0), ("streamId", .u8 1),
-  ("uncompressedLength", .dyn (u16le ((message.length + 18) % 65536)) (.size "payload" 1 0 18)),
+  ("uncompressedLength", .dyn (u16le ((message.length + 18) % 65536)) (.sizeSat "payload" 1 0 18)),
   ("pduType2", .u8 pduType2), ("compressedType", .u8 0), ("compressedLength", u16le 0),
   ("payload", blob message)]
 
@@ -117,7 +113,7 @@ def shareDataHeaderTmpl : Msg := shareDataHeader 0 0x32 []
 def demandActiveTmpl : Msg := .comp [
   ("shareId", u32le 0),
   ("lengthSourceDescriptor", .dyn (u16le 0) (.size "sourceDescriptor" 1 0 0)),
-  ("lengthCombinedCapabilities", .dyn (u16le 0) (.size "capabilitySets" 1 0 4)),
+  ("lengthCombinedCapabilities", .dyn (u16le 0) (.sizeSat "capabilitySets" 1 0 4)),
   ("sourceDescriptor", blob []),
   ("numberCapabilities", u16le 0), ("pad2Octets", u16le 0),
   ("capabilitySets", .array (some capabilitySetTmpl) []),
@@ -127,7 +123,7 @@ def demandActiveTmpl : Msg := .comp [
 def confirmActive (shareId : Nat) (source : Bytes) (caps : List Msg) (capsLen : Nat) : Msg := .comp [
   ("shareId", u32le shareId), ("originatorId", .check (u16le 0x03EA)),
   ("lengthSourceDescriptor", .dyn (u16le (source.length % 65536)) (.size "sourceDescriptor" 1 0 0)),
-  ("lengthCombinedCapabilities", .dyn (u16le ((capsLen % 65536 + 4) % 65536)) (.size "capabilitySets" 1 0 4)),
+  ("lengthCombinedCapabilities", .dyn (u16le ((capsLen % 65536 + 4) % 65536)) (.sizeSat "capabilitySets" 1 0 4)),
   ("sourceDescriptor", blob source),
   ("numberCapabilities", u16le (caps.length % 65536)), ("pad2Octets", u16le 0),
   ("capabilitySets", .array none caps)]
@@ -135,7 +131,7 @@ def confirmActive (shareId : Nat) (source : Bytes) (caps : List Msg) (capsLen : 
 def confirmActiveTmpl : Msg := .comp [
   ("shareId", u32le 0), ("originatorId", .check (u16le 0x03EA)),
   ("lengthSourceDescriptor", .dyn (u16le 0) (.size "sourceDescriptor" 1 0 0)),
-  ("lengthCombinedCapabilities", .dyn (u16le 4) (.size "capabilitySets" 1 0 4)),
+  ("lengthCombinedCapabilities", .dyn (u16le 4) (.sizeSat "capabilitySets" 1 0 4)),
   ("sourceDescriptor", blob []),
   ("numberCapabilities", u16le 0), ("pad2Octets", u16le 0),
   ("capabilitySets", .array (some capabilitySetTmpl) [])]
